@@ -100,7 +100,16 @@ async def run_worker(loop, sc: dict, make=None, projector=inmem_projector, signa
     from repid.converter import PydanticConverter
 
     rec = WorkerRecorder(latency_us=latency_us)
-    if make is None:
+    be = None
+    if make is None and sc.get("backend", "inmem") != "inmem":
+        import random as _random
+
+        from .backends import backend as get_backend
+        _random.seed(sc.get("seed", 0))
+        be = get_backend(sc["backend"], loop, sc.get("seed", 0), schedule=bool(sc.get("schedule")))
+        broker = be["make"]()[0]
+        projector, signature = be["projector"], be["signature"]
+    elif make is None:
         broker = InMemoryMessageBroker()
     else:
         broker = make()
@@ -360,7 +369,23 @@ async def run_worker(loop, sc: dict, make=None, projector=inmem_projector, signa
             # the cancel event only *forces* anything if processing tasks are still pending
             state["forced"] = True
             rec.emit({"e": "forced"})
-    loop.after_handle = after
+    kill_fut = loop.create_future()
+
+    def do_kill():
+        """the worker's process dies: nothing it does reaches the broker any more, no cleanup runs"""
+        state["killed"] = True
+        broker.conn.dead = True
+        rec.emit({"e": "crash", "cs": sorted(c for c in rec.cons.values())})
+        if not kill_fut.done():
+            kill_fut.set_result(None)
+    after_stop = after
+
+    def after_kill(h):
+        after_stop(h)
+        kl = sc.get("kill")
+        if kl and not state.get("killed") and loop.steps - state["steps0"] >= kl["at_step"]:
+            do_kill()
+    loop.after_handle = after_kill if sc.get("kill") else after
     run_exc = None
     async def run_one(idx):
         WNO.set(idx + 1)
@@ -371,7 +396,13 @@ async def run_worker(loop, sc: dict, make=None, projector=inmem_projector, signa
     main_task = asyncio.ensure_future(asyncio.wait_for(run_all(), timeout=sc.get("horizon_ms", 60_000) / 1000 + 120))
     try:
         try:
+            if sc.get("kill"):
+                await asyncio.wait({main_task, kill_fut}, return_when=asyncio.FIRST_COMPLETED)
+                if state.get("killed"):
+                    raise _Killed
             await main_task
+        except _Killed:
+            run_exc = None
         except asyncio.TimeoutError:
             run_exc = "run() did not return"
         except asyncio.CancelledError:
@@ -381,7 +412,9 @@ async def run_worker(loop, sc: dict, make=None, projector=inmem_projector, signa
         except Exception as e:  # noqa: BLE001
             run_exc = f"run() raised {type(e).__name__}: {e}"
         state["run_steps"] = loop.steps - state["steps0"]
-        if run_exc is None:
+        if state.get("killed"):
+            await recover_after_kill(loop, sc, rec, be, jobs)
+        elif run_exc is None:
             rec.emit({"e": "rend"})
         rec.worker_no = 0
         feed.cancel()
@@ -416,6 +449,41 @@ async def run_worker(loop, sc: dict, make=None, projector=inmem_projector, signa
             "end_us": CLOCK.us,
             "event_steps": sorted(x - state["steps0"] for x in rec.event_steps if x >= state["steps0"])}
     return rec, info
+
+
+class _Killed(Exception):
+    pass
+
+
+async def recover_after_kill(loop, sc, rec, be, jobs):
+    """after the worker's process death: other clients come and go (each connect/disconnect runs the broker's
+    maintenance) before and after the execution timeout of the messages left in flight; then a healthy consumer
+    drains the queues"""
+    from repid.message import MessageCategory
+    tmo = max((j.get("timeout_s") or 600) for j in jobs.values())
+    rec.worker_no = 0
+    WNO.set(0)
+    for wait_s in sc.get("recover_waits_s", [0.2, tmo - 1.5, 1.0, 0.45, 0.3, 1.2]):
+        await asyncio.sleep(max(0.0, wait_s))
+        b2, conn2 = be["make"]()
+        await conn2.connect()          # -> maintenance
+        await asyncio.sleep(0.01)
+        await conn2.disconnect()       # -> maintenance
+    b3, conn3 = be["make"]()
+    rec.wrap_broker(b3)
+    await conn3.connect()
+    queues = {j.get("queue", sc["actors"].get(j["actor"], {}).get("queue", "default")) for j in jobs.values()}
+    for q in sorted(queues):
+        c = b3.get_consumer(q, None, None, MessageCategory.NORMAL)
+        await c.start()
+        while True:
+            try:
+                key, payload, params = await asyncio.wait_for(c.consume(), 2.0)
+            except asyncio.TimeoutError:
+                break
+            await b3.ack(key)
+        await c.finish()
+    await conn3.disconnect()
 
 
 def record(sc: dict, **kw):
